@@ -42,11 +42,27 @@ func lockPath(v ssa.Value) string {
 				return n.Obj().Name() + "." + strings.Join(names, ".")
 			}
 			v = x.X
+		case *ssa.FreeVar:
+			// a mutex declared in an enclosing function and captured by the closure
+			if isSyncMutex(deref(x.Type())) {
+				return "local." + x.Name()
+			}
+			return ""
+		case *ssa.Alloc:
+			if isSyncMutex(deref(x.Type())) && x.Comment != "" {
+				return "local." + x.Comment
+			}
+			return ""
 		default:
 			return ""
 		}
 	}
 	return ""
+}
+
+func isSyncMutex(t types.Type) bool {
+	n, ok := t.(*types.Named)
+	return ok && n.Obj().Pkg() != nil && n.Obj().Pkg().Path() == "sync" && (n.Obj().Name() == "Mutex" || n.Obj().Name() == "RWMutex")
 }
 
 func lockOpOf(in ssa.Instruction) (lockOp, bool) {
